@@ -1003,7 +1003,9 @@ def onInvocation (s : Sess) (beh : List HAct) (req : ReqId) (reg : RegId) (p : P
 
 def onEstablished (s : Sess) (beh : List HAct) : InMsg → Sess × List SOut
   | .goodbye =>
-    -- reply unless this side initiated; the session is over; `onLeave`, then 'leave'
+    -- reply unless this side initiated (`self._transport.send` on None raises before anything changes);
+    -- the session is over; `onLeave`, then 'leave'
+    if !s.goodbyeSent && !s.transport then (s, [.raise_ .attributeError]) else
     let out := if s.goodbyeSent then [] else [SOut.send { typ := .goodbye }]
     let r := leaveHook { s with sessionId := none } 0 (beh.headD {})
     (r.1, out ++ r.2)
